@@ -55,7 +55,7 @@ const NAMES: [Option<&str>; 4] = [None, Some("A"), Some("B"), Some("C")];
 const LABELS: [Option<&str>; 3] = [None, Some("x"), Some("y")];
 
 fn has_cycle(t: &Ty) -> bool { match t { Ty::Cycle(_) => true, Ty::Tuple { fields, .. } => fields.iter().any(|f| has_cycle(&f.1)), Ty::Partial { fields, .. } => fields.iter().any(|f| has_cycle(&f.1)), Ty::Union(ms) => ms.iter().any(has_cycle), Ty::Fn(p, r) => has_cycle(p) || has_cycle(r), _ => false } }
-fn has_cycle_deep(t: &Ty, aliases: &[Ty]) -> bool { match t { Ty::Cycle(_) => true, Ty::Tuple { fields, .. } => fields.iter().any(|f| has_cycle_deep(&f.1, aliases)), Ty::Partial { fields, .. } => fields.iter().any(|f| has_cycle_deep(&f.1, aliases)), Ty::Union(ms) => ms.iter().any(|m| has_cycle_deep(m, aliases)), Ty::Fn(p, r) => has_cycle_deep(p, aliases) || has_cycle_deep(r, aliases), Ty::Alias(i) => has_cycle_deep(&aliases[*i], aliases), _ => false } }
+pub fn has_cycle_deep(t: &Ty, aliases: &[Ty]) -> bool { match t { Ty::Cycle(_) => true, Ty::Tuple { fields, .. } => fields.iter().any(|f| has_cycle_deep(&f.1, aliases)), Ty::Partial { fields, .. } => fields.iter().any(|f| has_cycle_deep(&f.1, aliases)), Ty::Union(ms) => ms.iter().any(|m| has_cycle_deep(m, aliases)), Ty::Fn(p, r) => has_cycle_deep(p, aliases) || has_cycle_deep(r, aliases), Ty::Alias(i) => has_cycle_deep(&aliases[*i], aliases), _ => false } }
 fn has_fn(t: &Ty, aliases: &[Ty]) -> bool { match t { Ty::Fn(..) => true, Ty::Tuple { fields, .. } => fields.iter().any(|f| has_fn(&f.1, aliases)), Ty::Partial { fields, .. } => fields.iter().any(|f| has_fn(&f.1, aliases)), Ty::Union(ms) => ms.iter().any(|m| has_fn(m, aliases)), Ty::Alias(i) => has_fn(&aliases[*i], aliases), _ => false } }
 
 /// Generate a type. `boundaries`: number of enclosing unions (cycle targets available);
